@@ -415,7 +415,9 @@ func (mr *msgReader) Read(p []byte) (n int, err error) {
 	defer mr.c.readMu.unlock()
 
 	n, err = mr.limitReader.Read(p)
-	if mr.flate && mr.flateContextTakeover() {
+	// mr.dict is nil if the connection was closed during the read
+	// i.e. a close frame was received in between the fragments of this message.
+	if mr.flate && mr.flateContextTakeover() && mr.dict != nil {
 		p = p[:n]
 		mr.dict.write(p)
 	}
